@@ -912,6 +912,26 @@ func (f *Frame) evalCall(e *spec.Call, st, old *State) TV {
 			specErr("dyn: unknown type %s", tn)
 		}
 		return TV{B.Eq(iv.Fields[0].(*smt.Term), x.typeID(t)), types.Typ[types.Bool]}
+	case "prev":
+		// prev(e): e with the loop's variables at the values they had at the start of the iteration
+		// (only inside a "loop N step" clause)
+		if len(e.Args) != 1 || f.prevVals == nil {
+			specErr("prev(e) is only meaningful in a loop step clause")
+		}
+		cur := map[*ssa.Phi]Value{}
+		for phi, v := range f.prevVals {
+			cur[phi] = f.regs[phi]
+			f.regs[phi] = v
+		}
+		pv := f.prevVals
+		f.prevVals = nil
+		defer func() {
+			for phi, v := range cur {
+				f.regs[phi] = v
+			}
+			f.prevVals = pv
+		}()
+		return f.eval(e.Args[0], st, old)
 	case "elemindex":
 		// elemindex(p, s): the index i such that p == &s[i], for a pointer p into the array of slice s
 		// (meaningless otherwise: say p == &s[elemindex(p, s)] next to it)
